@@ -850,6 +850,8 @@ var ribSpecs = []fnSpec{
 
 var ribDelSpec = fnSpec{
 	file: "rib/rib.go", goName: "DeleteEntry", recvType: "*RIB", callAs: "r.DeleteEntry", leanName: "deleteEntry", joins: true,
+	// the judgement, the removal and the counter changes are one transaction: all recorded calls under txMu
+	holdLocks: []string{"r.txMu"},
 	params: []param{
 		{goName: "ni", goType: "string", lean: "ni", kd: kStr},
 		{goName: "op", goType: "*spb.AFTOperation", lean: "op", kd: kPtr("AFTOperationC")},
@@ -1055,6 +1057,7 @@ var ribTableSpecs = []fnSpec{
 var ribSmallSpecs = []fnSpec{
 	{
 		file: "rib/rib.go", goName: "AddEntry", recvType: "*RIB", callAs: "r.AddEntry§", leanName: "ribAddEntry",
+		holdLocks: []string{"r.txMu"},
 		params: []param{
 			{goName: "ni", goType: "string", lean: "ni", kd: kStr},
 			{goName: "op", goType: "*spb.AFTOperation", lean: "op", kd: kPtr("AFTOperationC")},
